@@ -48,3 +48,129 @@ def install():
             core._PATCH_REGISTRATIONS.pop(fn, None)
 
     EnforcedConditions.trace_call = lambda self, frame, fn, binding_target: None
+
+    # 4. Text formatting of symbolic values ("fmt" % args, f-strings, which CPython 3.12 also uses for
+    #    constant %-formats).  CrossHair either deep-realizes the arguments at once or renders a symbolic
+    #    int digit by digit (forking on sign and digit count): both turn one path into an unbounded family
+    #    of paths that differ only in a number inside an exception/log message.  The patches below return
+    #    a *lazy* str-typed CrossHair value that performs exactly the stock realization + formatting, but
+    #    only when something observes the text (sound: every observation forces the real result;
+    #    concatenation of lazy pieces stays lazy).
+    from crosshair.core import deep_realize
+    from crosshair.tracers import NoTracing
+    from crosshair.util import CrossHairValue
+    from crosshair.libimpl.builtinslib import AnySymbolicStr
+    from crosshair import opcode_intercept
+
+    class LazyStr(AnySymbolicStr):
+        def __init__(self, thunk):
+            self._thunk = thunk
+            self._val = None
+
+        def __ch_realize__(self):
+            if self._val is None:
+                with NoTracing():
+                    self._val = self._thunk()
+                self._thunk = None
+            return self._val
+
+        def __add__(self, other):
+            if isinstance(other, (str, AnySymbolicStr)):
+                return LazyStr(lambda: _force(self) + _force(other))
+            return NotImplemented
+
+        def __radd__(self, other):
+            if isinstance(other, (str, AnySymbolicStr)):
+                return LazyStr(lambda: _force(other) + _force(self))
+            return NotImplemented
+
+        def __len__(self):
+            return len(self.__ch_realize__())
+
+        def __getitem__(self, i):
+            return self.__ch_realize__()[deep_realize(i)]
+
+        def __eq__(self, other):
+            return self.__ch_realize__() == deep_realize(other)
+
+        def __hash__(self):
+            return hash(self.__ch_realize__())
+
+        def __iter__(self):
+            return iter(self.__ch_realize__())
+
+        def __contains__(self, x):
+            return deep_realize(x) in self.__ch_realize__()
+
+    def _force(x):
+        if isinstance(x, LazyStr):
+            return x.__ch_realize__()
+        return deep_realize(x)
+
+    def _has_symbolic(x, depth=0):
+        if isinstance(x, CrossHairValue):
+            return True
+        if depth < 3 and type(x) in (tuple, list):
+            return any(_has_symbolic(y, depth + 1) for y in x)
+        if depth < 3 and type(x) is dict:
+            return any(_has_symbolic(y, depth + 1) for y in x.values())
+        return False
+
+    def _percent(self, other):
+        with NoTracing():
+            lazy = type(self) is str and _has_symbolic(other)
+        if lazy:
+            return LazyStr(lambda: self.__mod__(deep_realize(other)))
+        return self.__mod__(deep_realize(other))
+
+    core._PATCH_REGISTRATIONS.pop(str.__mod__, None)
+    register_patch(str.__mod__, _percent)
+
+    FSV = opcode_intercept.FormatStashingValue
+    _o_str, _o_fmt, _o_repr = FSV.__str__, FSV.__format__, FSV.__repr__
+
+    def _lazy_wanted(v):
+        with NoTracing():
+            return _has_symbolic(v) and not isinstance(v, AnySymbolicStr)
+
+    def _fsv_str(self):
+        if _lazy_wanted(self.value):
+            v = self.value
+            self.formatted = LazyStr(lambda: str(deep_realize(v)))
+            return ""
+        return _o_str(self)
+
+    def _fsv_format(self, fmt):
+        if _lazy_wanted(self.value):
+            v = self.value
+            self.formatted = LazyStr(lambda: format(deep_realize(v), deep_realize(fmt)))
+            return ""
+        return _o_fmt(self, fmt)
+
+    def _fsv_repr(self):
+        if _lazy_wanted(self.value):
+            v = self.value
+            self.formatted = LazyStr(lambda: repr(deep_realize(v)))
+            return ""
+        return _o_repr(self)
+
+    FSV.__str__, FSV.__format__, FSV.__repr__ = _fsv_str, _fsv_format, _fsv_repr
+
+    # 5. ExceptionFilter renders an *expected* exception's message for a debug() line even when
+    #    debugging is off, which forces the lazy text above; skip the rendering.
+    from crosshair.core import ExceptionFilter, CallAnalysis, PostconditionFailed, IgnoreAttempt
+    from crosshair.statespace import VerificationStatus
+    _o_exit = ExceptionFilter.__exit__
+
+    def _exit(self, exc_type, exc_value, tb):
+        with NoTracing():
+            expected = (exc_value is not None and self.expected_exceptions
+                        and isinstance(exc_value, self.expected_exceptions)
+                        and not isinstance(exc_value, (PostconditionFailed, IgnoreAttempt)))
+            if expected:
+                self.ignore = True
+                self.analysis = CallAnalysis(VerificationStatus.CONFIRMED)
+                return True
+        return _o_exit(self, exc_type, exc_value, tb)
+
+    ExceptionFilter.__exit__ = _exit
